@@ -265,7 +265,11 @@ pub fn run<G: Grp>(m: &mut Machine, name: &str, args: &[Val]) -> R<Out> {
             x.mul_assign(get_fr(arg(args, 1)?)?);
             ok1(G::wp(x))
         }
-        "amul" => ok1(G::wp(a(0)?.mul(k(1)?))),
+        // the scalar parameter is generic (S: Into<Repr>): a representation or a field element
+        "amul" => match arg(args, 1)? {
+            Val::Fr(f) => ok1(G::wp(a(0)?.mul(*f))),
+            _ => ok1(G::wp(a(0)?.mul(k(1)?))),
+        },
         "wnaf_table" => {
             let w = n(1)? as usize;
             let mut t = vec![];
@@ -355,7 +359,10 @@ pub fn run<G: Grp>(m: &mut Machine, name: &str, args: &[Val]) -> R<Out> {
         }
         "mul_pre3" => {
             let pre = affines_of::<G>(arg(args, 2)?)?;
-            ok1(G::wp(a(0)?.mul_precomp_3(k(1)?, &pre)))
+            match arg(args, 1)? {
+                Val::Fr(f) => ok1(G::wp(a(0)?.mul_precomp_3(*f, &pre))),
+                _ => ok1(G::wp(a(0)?.mul_precomp_3(k(1)?, &pre))),
+            }
         }
         "precomp256" => {
             let mut pre = vec![G::A::one(); 256];
@@ -364,7 +371,10 @@ pub fn run<G: Grp>(m: &mut Machine, name: &str, args: &[Val]) -> R<Out> {
         }
         "mul_pre256" => {
             let pre = affines_of::<G>(arg(args, 2)?)?;
-            ok1(G::wp(a(0)?.mul_precomp_256(k(1)?, &pre)))
+            match arg(args, 1)? {
+                Val::Fr(f) => ok1(G::wp(a(0)?.mul_precomp_256(*f, &pre))),
+                _ => ok1(G::wp(a(0)?.mul_precomp_256(k(1)?, &pre))),
+            }
         }
         // ---------------------------------------------------------------- multi-scalar multiplication (C10)
         "msm" | "msm_pip" | "msm_pre256" => {
